@@ -171,6 +171,11 @@ func CreateEntryWithIO(ctx context.Context, ipfsInstance coreiface.CoreAPI, iden
 
 	data.SetV(2)
 
+	// The key must be set before the pre-sign step: Verify runs the same step
+	// on the complete entry, and a link-encrypting codec derives its nonce
+	// from the entry's fields, key included.
+	data.SetKey(identity.PublicKey)
+
 	if io, ok := io.(iface.IOPreSign); ok {
 		var err error
 		data, err = io.PreSign(data)
@@ -196,7 +201,6 @@ func CreateEntryWithIO(ctx context.Context, ipfsInstance coreiface.CoreAPI, iden
 		return nil, errmsg.ErrSigSign.Wrap(err)
 	}
 
-	data.SetKey(identity.PublicKey)
 	data.SetSig(signature)
 
 	data.SetIdentity(identity.Filtered())
